@@ -139,6 +139,12 @@ pub fn gen_config(profile: &str, rng: &mut Rng, tier: Tier) -> Config {
 	if matches!(profile, "forward" | "payments" | "offchain" | "crash") {
 		w(&mut weights, "Resend", *r.pick(&[0, 1, 2]));
 	}
+	// the forwarding node changes its policy in a quarter of the `forward` runs (drawn from a forked
+	// stream so that the other runs are what they were before this action existed)
+	if profile == "forward" {
+		let mut pr = r.fork("policy");
+		w(&mut weights, "SetPolicy", *pr.pick(&[0, 0, 0, 3]));
+	}
 	match profile {
 		"offchain" => {
 			w(&mut weights, "CloseCoop", if r.chance(1, 3) { 1 } else { 0 });
@@ -483,6 +489,7 @@ pub fn next_action(wd: &World, rng: &mut Rng) -> Option<Action> {
 		kinds.push(("Forward", weight(cfg, "Forward")));
 		kinds.push(("Tick", weight(cfg, "Tick")));
 		kinds.push(("SetFee", weight(cfg, "SetFee")));
+		kinds.push(("SetPolicy", weight(cfg, "SetPolicy")));
 		kinds.push(("PersistMgr", weight(cfg, "PersistMgr")));
 		kinds.push(("AsyncOn", weight(cfg, "AsyncOn")));
 		kinds.push(("Crash", weight(cfg, "Crash")));
@@ -652,6 +659,19 @@ pub fn next_action(wd: &World, rng: &mut Rng) -> Option<Action> {
 		"SetFee" => {
 			let rate = *rng.pick(&[253u32, 300, 500, 1000, 2000, 3000, 5000, 254]);
 			Action::SetFee { n: pick_live(rng), rate }
+		},
+		"SetPolicy" => {
+			// mostly the node that forwards; fee and CLTV delta often move in opposite directions
+			let n = pick_live(rng);
+			let c = &wd.nodes[n].cfg;
+			let (fee_base, cltv_delta) = match rng.below(4) {
+				0 => (c.fee_base_msat + 1500, if c.cltv_delta > 72 { c.cltv_delta - 24 } else { 48 }),
+				1 => (c.fee_base_msat.saturating_sub(700), c.cltv_delta + 24),
+				2 => (c.fee_base_msat + 1000, c.cltv_delta + 24),
+				_ => (*rng.pick(&[0u32, 1000, 2500, 4000]), *rng.pick(&[48u16, 72, 96, 144])),
+			};
+			let fee_prop = if rng.chance(1, 3) { *rng.pick(&[0u32, 100, 10_000]) } else { c.fee_prop_millionths };
+			Action::SetPolicy { n, fee_base, fee_prop, cltv_delta, mix: if rng.chance(2, 3) { 1 } else { 0 } }
 		},
 		"PersistMgr" => Action::PersistMgr { n: pick_live(rng) },
 		"AsyncOn" => {
